@@ -34,13 +34,16 @@ theorem langPrimary_ne (e : End) (inp acc v r : List Nat)
     simpa using hne
 
 theorem xsd_ne_lang : xsdString ≠ rdfLangString := by decide
+theorem xsd_ne_dir : xsdString ≠ rdfDirLangString := by decide
+theorem lang_ne_dir : rdfLangString ≠ rdfDirLangString := by decide
 
 theorem captureLiteral_shape (T : Tables) (urlOk : List Nat → Bool) (e : End) (inp : List Nat)
     (v : Term (List Nat)) (r : List Nat) (h : captureLiteral T urlOk e inp = .ok v r) :
     ∃ lex dt lang, v = .lit lex dt lang ∧ litOK urlOk dt lang := by
   have plain : ∀ lex, ∃ lex' dt lang, (Term.lit lex xsdString none : Term (List Nat)) = .lit lex' dt lang ∧
       litOK urlOk dt lang := fun lex =>
-    ⟨lex, _, _, rfl, Or.inl rfl, ⟨fun h => absurd h xsd_ne_lang, fun ⟨t, ht, _⟩ => by simp at ht⟩⟩
+    ⟨lex, _, _, rfl, Or.inl rfl, ⟨fun h => absurd h xsd_ne_lang, fun ⟨t, ht, _⟩ => by simp at ht⟩,
+      xsd_ne_dir⟩
   unfold captureLiteral at h
   split at h
   · simp at h
@@ -54,7 +57,7 @@ theorem captureLiteral_shape (T : Tables) (urlOk : List Nat → Bool) (e : End) 
         · next tag r' hl =>
           simp only [R.ok.injEq] at h; obtain ⟨rfl, _⟩ := h
           exact ⟨_, _, _, rfl, Or.inr (Or.inl rfl),
-            ⟨fun _ => ⟨tag, rfl, langPrimary_ne _ _ _ _ _ hl⟩, fun _ => rfl⟩⟩
+            ⟨fun _ => ⟨tag, rfl, langPrimary_ne _ _ _ _ _ hl⟩, fun _ => rfl⟩, lang_ne_dir⟩
         · simp at h
       · split at h
         · split at h
@@ -72,7 +75,8 @@ theorem captureLiteral_shape (T : Tables) (urlOk : List Nat → Bool) (e : End) 
                     · next hne =>
                       simp only [R.ok.injEq] at h; obtain ⟨rfl, _⟩ := h
                       exact ⟨_, _, _, rfl, Or.inr (Or.inr (captureIRI_urlOk _ _ _ _ _ _ hi)),
-                        ⟨fun hh => absurd hh hne, fun ⟨t, ht, _⟩ => by simp at ht⟩⟩
+                        ⟨fun hh => absurd (Or.inl hh) hne, fun ⟨t, ht, _⟩ => by simp at ht⟩,
+                        fun hh => hne (Or.inr hh)⟩
                   · simp at h
         · simp only [R.ok.injEq] at h; obtain ⟨rfl, _⟩ := h; exact plain _
 
